@@ -4,7 +4,7 @@ TIER=quick
 if [ "$1" = "-t" ]; then TIER="$2"; shift 2; fi
 cd "$(dirname "$0")/.." || exit 2
 mkdir -p work
-IDS=$(python3 -c "import json;print(' '.join(c['property_id'] for c in json.load(open('MANIFEST.json'))['checks']))")
+IDS=${ONLY:-$(python3 -c "import json;print(' '.join(c['property_id'] for c in json.load(open('MANIFEST.json'))['checks']))")}
 for S in "$@"; do
   for P in $IDS; do
     START=$(date +%s)
